@@ -28,7 +28,7 @@ CONSTANTS Keys,        \* 1..NKeys
           MaxLevel,    \* levels are 0..MaxLevel
           MinL0L0,     \* tables needed for an L0->L0 compaction (4 in the code)
           NVK,         \* Options.NumVersionsToKeep
-          Kinds,       \* subset of {"val", "del", "disc", "merge"}: what Put may write
+          Kinds,       \* subset of {"val", "del", "exp", "disc", "merge"}: what Put may write
           L0L0KeepsTombstones,   \* TRUE: an L0->L0 compaction always keeps deletion markers (the
                                  \* repaired code); FALSE: only when a lower level overlaps (the
                                  \* code before the repair, which loses them - see DESIGN section 7)
@@ -59,7 +59,7 @@ MaxK(es) == CHOOSE k \in KeysOf(es) : \A j \in KeysOf(es) : k >= j
 \* key-range overlap of two non-empty entry sets (keyRange.overlapsWith on user keys)
 Ovl(a, b) == a # {} /\ b # {} /\ MinK(a) <= MaxK(b) /\ MinK(b) <= MaxK(a)
 
-IsDead(e) == e.kind = "del"
+IsDead(e) == e.kind \in {"del", "exp"}     \* isDeletedOrExpired: "exp" is an entry whose TTL has passed
 IsDisc(e) == e.kind = "disc"
 IsMerge(e) == e.kind = "merge"
 
